@@ -8,6 +8,7 @@ import SparseV.Model.Create
 import SparseV.Spec.Create
 import SparseV.Lemmas.Assoc
 import SparseV.Lemmas.Index
+import SparseV.Lemmas.Gen.Create
 namespace SparseV
 namespace Create
 open SparseV.COO SparseV.Spec
@@ -15,16 +16,15 @@ open SparseV.COO SparseV.Spec
 /-! ### eye -/
 
 theorem eyeLen_none (N k : Int) : Gen.eyeLen N none k = Gen.eyeLen N (some N) k := by
-  simp only [Gen.eyeLen]
+  simp only [Gen.eyeLen_eq, Ref.eyeLen, Option.getD]
 
 theorem eyeLen_eq (N M k : Int) :
     Gen.eyeLen N (some M) k = if k > 0 then max (min (min N M) (M - k)) 0 else if k < 0 then max (min (min N M) (N + k)) 0 else min N M := by
-  simp only [Gen.eyeLen]
+  simp only [Gen.eyeLen_eq, Ref.eyeLen, Option.getD]
 
 theorem eyeCoord_eq (t k : Int) :
     Gen.eyeCoord t k = (if k < 0 then t - k else t, if k > 0 then t + k else t, 0) := by
-  simp only [Gen.eyeCoord]
-  split <;> split <;> simp <;> omega
+  rw [Gen.eyeCoord_eq, Ref.eyeCoord]
 
 theorem lookup_map_hit {α : Type} (l : List Nat) (key : Nat → Idx) (v d : α) (idx : Idx)
     (h : ∃ t ∈ l, key t = idx) : lookup (l.map fun t => (key t, v)) d idx = v := by
@@ -425,27 +425,7 @@ theorem reverse_good (a : List Int) (N : Int) (hN0 : 0 ≤ N) (hp : a.Pairwise (
   have := (h3 x).mp hx
   omega
 
-/-- the seven leaves of the generated selection and what holds at each: only what the samplers need
-(`choice` with size 0 or 1, algD with `1 ≤ n < N`, algA with `1 ≤ n ≤ N`) — the `10 *` thresholds between
-algA and algD are performance choices and are not pinned here -/
-theorem randomBranch_cases (nnz elements : Int) (dge1 : Bool) (_h0 : 0 ≤ nnz) (h1 : nnz ≤ elements)
-    (hd : dge1 = true → nnz = elements) :
-    (Gen.randomBranch nnz elements dge1 = (0, nnz, elements) ∧ nnz = elements) ∨
-    (Gen.randomBranch nnz elements dge1 = (1, nnz, elements) ∧ nnz < 2 ∧ nnz < elements) ∨
-    (Gen.randomBranch nnz elements dge1 = (2, elements - nnz, elements) ∧ 2 ≤ nnz ∧ elements - nnz = 1) ∨
-    (Gen.randomBranch nnz elements dge1 = (3, elements - nnz, elements) ∧ 1 ≤ elements - nnz ∧ 1 ≤ nnz) ∨
-    (Gen.randomBranch nnz elements dge1 = (4, elements - nnz, elements) ∧ 1 ≤ elements - nnz ∧ 0 ≤ nnz) ∨
-    (Gen.randomBranch nnz elements dge1 = (5, nnz, elements) ∧ 1 ≤ nnz ∧ 1 ≤ elements - nnz) ∨
-    (Gen.randomBranch nnz elements dge1 = (6, nnz, elements) ∧ 1 ≤ nnz ∧ 0 ≤ elements - nnz) := by
-  by_cases c1 : nnz = elements ∨ dge1 = true
-  · left
-    have : nnz = elements := by rcases c1 with h | h; exact h; exact hd h
-    exact ⟨by simp only [Gen.randomBranch, c1, if_true], this⟩
-  · -- every other leaf, whatever tests lead to it: the tuple identifies the disjunct, the path conditions give the rest
-    have hne : nnz ≠ elements := fun h => c1 (Or.inl h)
-    simp only [Gen.randomBranch, c1, if_false]
-    repeat' split
-    all_goals (simp only [Prod.mk.injEq, true_and, and_true]; omega)
+abbrev randomBranch_cases := @Gen.randomBranch_cases
 
 theorem random_idx (nnz elements : Int) (dge1 : Bool) (o : Oracle) (h0 : 0 ≤ nnz) (h1 : nnz ≤ elements)
     (hd : dge1 = true → nnz = elements) (ok : OracleOK nnz elements dge1 o) :
